@@ -524,3 +524,41 @@ def sym_expr(fi, expr, at, depth=6):
 
 def sym_text(fi, expr, at, depth=6):
     return ast.unparse(sym_expr(fi, expr, at, depth))
+
+
+def flat_slice(ctx, fi, expr, at):
+    """the byte range of `expr` inside the buffer it is ultimately cut from: follows names to their single definition and
+    composes nested slices with constant bounds.  -> (base text, lo, hi | None, symbolic upper text | None) or None.
+    datagram[:20][:12], aad[:12] with aad = datagram[:20], and datagram[:12] are all ('datagram', 0, 12, None)."""
+    e = resolve_arg(fi, expr, at) if isinstance(expr, ast.Name) else expr
+    if isinstance(e, ast.Name):
+        return (e.id, 0, None, None)
+    sb = slice_bounds(e) if isinstance(e, ast.Subscript) else None
+    if sb is None:
+        return None
+    inner = flat_slice(ctx, fi, e.value, at)
+    if inner is None:
+        return None
+    base, ilo, ihi, isym = inner
+    lo = fold_int(ctx, fi, sb[1]) if sb[1] is not None else 0
+    if lo is None or lo < 0:
+        return None
+    hi = None
+    sym = None
+    if sb[2] is not None:
+        hi = fold_int(ctx, fi, sb[2])
+        if hi is None:
+            if isym is not None or ihi is not None:
+                return None
+            sym = norm(sym_expr(fi, sb[2], defuse_of(fi).cfg.node_of(at))) if at is not None else norm(sb[2])
+        elif hi < 0:
+            return None
+    nlo = ilo + lo
+    if hi is not None:
+        nhi = ilo + hi
+        if ihi is not None:
+            nhi = min(nhi, ihi)
+        return (base, min(nlo, nhi), nhi, None)
+    if sym is not None:
+        return (base, nlo, None, sym) if ilo == 0 else None
+    return (base, nlo if ihi is None else min(nlo, ihi), ihi, isym)
